@@ -1,0 +1,94 @@
+//go:build verif
+
+package verifapi
+
+// Hooks of the keyspace check (C01) for the packed layout of field.List
+// (internal/field/list_binary.go): the raw bytes behind a list, a list over
+// given raw bytes, List.Weight, and the shared-name table.
+
+import (
+	"fmt"
+	"unsafe"
+
+	"github.com/tidwall/tile38/internal/field"
+	"github.com/tidwall/tile38/internal/sstring"
+)
+
+// listPtr returns the only word of a field.List: the pointer to its allocation.
+func listPtr(l *field.List) *byte {
+	if unsafe.Sizeof(*l) != unsafe.Sizeof(uintptr(0)) {
+		panic("verifapi: field.List is no longer a single pointer")
+	}
+	return *(**byte)(unsafe.Pointer(l))
+}
+
+// Raw returns a copy of the allocation behind the list, size header included,
+// or nil for the nil list. The length is found with a reader of its own: byte
+// by byte up to the first byte below 0x80, which is how binary.PutUvarint ends
+// a number (at most ten bytes for a uint64).
+func (k *KsFieldList) Raw() []byte {
+	p := listPtr(&k.l)
+	if p == nil {
+		return nil
+	}
+	var x uint64
+	n := 0
+	for i := 0; i < 10; i++ {
+		b := *(*byte)(unsafe.Add(unsafe.Pointer(p), i))
+		x |= uint64(b&0x7f) << (7 * uint(i))
+		if b < 0x80 {
+			n = i + 1
+			break
+		}
+	}
+	if n == 0 {
+		panic("verifapi: field list header does not end within ten bytes")
+	}
+	total := n + int(x)
+	out := make([]byte, total)
+	copy(out, unsafe.Slice(p, total))
+	return out
+}
+
+// KsFieldListFromRaw returns a list over a private copy of raw (size header and
+// entries as the writers lay them out); nil or empty raw is the nil list.
+func KsFieldListFromRaw(raw []byte) *KsFieldList {
+	k := &KsFieldList{}
+	if len(raw) == 0 {
+		return k
+	}
+	buf := make([]byte, len(raw))
+	copy(buf, raw)
+	*(**byte)(unsafe.Pointer(&k.l)) = &buf[0]
+	return k
+}
+
+// Weight calls List.Weight.
+func (k *KsFieldList) Weight() int { return k.l.Weight() }
+
+// Try runs fn and reports a Go panic as text.
+func Try(fn func()) (panicked string) {
+	defer func() {
+		if r := recover(); r != nil {
+			panicked = fmt.Sprint(r)
+		}
+	}()
+	fn()
+	return ""
+}
+
+// SharedNameNumber is sstring.Store(name).
+func SharedNameNumber(name string) int { return sstring.Store(name) }
+
+// SharedName is sstring.Load(num); ok=false where Load panics.
+func SharedName(num int) (name string, ok bool) {
+	defer func() {
+		if recover() != nil {
+			name, ok = "", false
+		}
+	}()
+	return sstring.Load(num), true
+}
+
+// SharedNames is sstring.Len().
+func SharedNames() int { return sstring.Len() }
